@@ -31,6 +31,14 @@ impl Jail {
     pub fn target(&self) -> PathBuf {
         self.root.join("t/target")
     }
+    /// the destination as handed to `extract`: absolute, or relative to the process's working directory (`<jail>/cwd`)
+    pub fn target_arg(&self, relative: bool) -> PathBuf {
+        if relative {
+            PathBuf::from("../t/target")
+        } else {
+            self.target()
+        }
+    }
     pub fn outside_dir(&self) -> String {
         self.root.join("outside-dir").to_string_lossy().to_string()
     }
@@ -164,7 +172,7 @@ fn mechanism(files: &[FFile]) -> &'static str {
     }
 }
 
-fn hostile_case(sub: &str, jail: &Jail, shapes: &[&Shape], stripped: bool, rank: u64, acc: &mut Acc) {
+fn hostile_case(sub: &str, jail: &Jail, shapes: &[&Shape], stripped: bool, relative: bool, rank: u64, acc: &mut Acc) {
     acc.evals += 1;
     jail.reset();
     let files: Vec<FFile> = shapes.iter().map(|s| materialise(s, jail)).collect();
@@ -177,6 +185,7 @@ fn hostile_case(sub: &str, jail: &Jail, shapes: &[&Shape], stripped: bool, rank:
     };
     let describe = || json!({"entries": files.iter().map(|f| json!({"dirname": f.dir, "basename": f.base.replace(&jail.outside_dir(), "<jail>/outside-dir"), "mode": format!("{:o}", f.mode), "linkto": f.linkto.replace(&jail.outside_dir(), "<jail>/outside-dir")})).collect::<Vec<_>>(),
                              "archive": if stripped { "stripped entries (by file index)" } else { "newc entries (by name)" },
+                             "extract_destination": if relative { "../t/target (relative to the working directory <jail>/cwd)" } else { "<jail>/t/target (absolute)" },
                              "jail": "<jail>/{cwd (process cwd), t/ (parent of the target 't/target'), outside.txt, outside-dir/keep}"});
     let p = match parse_pkg(&x) {
         Ok(Ok(p)) => p,
@@ -186,7 +195,7 @@ fn hostile_case(sub: &str, jail: &Jail, shapes: &[&Shape], stripped: bool, rank:
         }
     };
     let before = jail.snapshot();
-    let r = catch(|| p.extract(jail.target()));
+    let r = catch(|| p.extract(jail.target_arg(relative)));
     let after = jail.snapshot();
     acc.nontrivial += 1;
     match &r {
@@ -268,7 +277,7 @@ fn model(x: &[u8]) -> Option<Vec<(String, u16, Vec<u8>, String)>> {
     Some(out)
 }
 
-fn benign_case(sub: &str, jail: &Jail, x: &[u8], rank: u64, case: &dyn Fn() -> Value, acc: &mut Acc) {
+fn benign_case(sub: &str, jail: &Jail, x: &[u8], umask: u32, relative: bool, rank: u64, case: &dyn Fn() -> Value, acc: &mut Acc) {
     acc.evals += 1;
     jail.reset();
     let Some(want) = model(x) else {
@@ -277,7 +286,10 @@ fn benign_case(sub: &str, jail: &Jail, x: &[u8], rank: u64, case: &dyn Fn() -> V
     };
     let Ok(Ok(p)) = parse_pkg(x) else { return };
     let before = jail.snapshot();
-    let r = catch(|| p.extract(jail.target()));
+    // the process-wide umask is safe to change: C12 workers are single-threaded
+    let old = unsafe { libc::umask(umask as libc::mode_t) };
+    let r = catch(|| p.extract(jail.target_arg(relative)));
+    unsafe { libc::umask(old) };
     let mut bad = |clause: &str, what: String| {
         acc.viol(Violation::new(sub, what, case()).sig("clause", clause).rank(rank));
     };
@@ -368,10 +380,10 @@ pub fn sweeps(ctx: &Ctx) -> Vec<Sweep> {
     // singles over the full alphabet
     {
         let a = full.clone();
-        let n = a.len() as u64 * 2;
-        v.push(Sweep::new("hostile-1", format!("every single entry of the alphabet: dirname ∈ {:?} × basename ∈ {{f, l, .., ../f, \"\", absolute path inside the jail, l/f, l/s/f, s.tmp, s.txt}} × kind ∈ {{regular, directory, symlink → f | .. | ../.. | ../../outside.txt | ../../outside-dir | absolute jail path, fifo}} ({} packages, each as a newc archive and as stripped index-addressed entries); snapshot of everything outside the target before/after extract; no panic", DIRS, n), n, {
+        let n = a.len() as u64 * 4;
+        v.push(Sweep::new("hostile-1", format!("every single entry of the alphabet: dirname ∈ {:?} × basename ∈ {{f, l, .., ../f, \"\", absolute path inside the jail, l/f, l/s/f, s.tmp, s.txt}} × kind ∈ {{regular, directory, symlink → f | .. | ../.. | ../../outside.txt | ../../outside-dir | absolute jail path, fifo}} ({} extractions: each as a newc archive and as stripped index-addressed entries, into an absolute and into a relative destination); snapshot of everything outside the target before/after extract; no panic", DIRS, n), n, {
             let jail = Jail::new("h1");
-            move |i, acc| hostile_case("hostile-1", &jail, &[&a[(i / 2) as usize]], i % 2 == 1, i, acc)
+            move |i, acc| hostile_case("hostile-1", &jail, &[&a[(i / 4) as usize]], i % 2 == 1, i % 4 >= 2, i, acc)
         }));
     }
     // ordered pairs
@@ -382,7 +394,7 @@ pub fn sweeps(ctx: &Ctx) -> Vec<Sweep> {
             let jail = Jail::new("h2");
             move |j, acc| {
                 let (i, stripped) = (j / 2, j % 2 == 1);
-                hostile_case("hostile-2", &jail, &[&a[(i / m) as usize], &a[(i % m) as usize]], stripped, j, acc)
+                hostile_case("hostile-2", &jail, &[&a[(i / m) as usize], &a[(i % m) as usize]], stripped, false, j, acc)
             }
         }));
     }
@@ -393,7 +405,7 @@ pub fn sweeps(ctx: &Ctx) -> Vec<Sweep> {
         let m = core.len() as u64;
         v.push(Sweep::new("hostile-3", format!("every ordered triple over a {}-entry core ({} packages)", m, m * m * m), m * m * m, {
             let jail = Jail::new("h3");
-            move |i, acc| hostile_case("hostile-3", &jail, &[&core[(i / m / m) as usize], &core[(i / m % m) as usize], &core[(i % m) as usize]], i % 3 == 1, i, acc)
+            move |i, acc| hostile_case("hostile-3", &jail, &[&core[(i / m / m) as usize], &core[(i / m % m) as usize], &core[(i % m) as usize]], i % 3 == 1, i % 5 == 2, i, acc)
         }));
     }
     // benign subset
@@ -413,13 +425,16 @@ pub fn sweeps(ctx: &Ctx) -> Vec<Sweep> {
         let files = foreign::sample_files();
         let order: Vec<usize> = (0..files.len()).collect();
         pkgs.push((json!({"hand-encoded": "sample files"}), foreign::package("hand", &files, foreign::newc_archive(&files, &order), None, false).join().0));
-        let n = pkgs.len() as u64;
-        v.push(Sweep::new("benign", format!("{} benign packages (library-built: rich configuration plain / gzip / large-file layout, boundary sizes, every class of permission bits incl. setuid / setgid / sticky, nested directories, relative and dangling symbolic links, a top-level file; the six assets; a hand-encoded package): extraction succeeds and every regular file, directory and symbolic link the package lists exists at target+path with the archived content, permission bits and link target; nothing outside the target changes", n), n, {
+        const UMASKS: [u32; 3] = [0o022, 0o077, 0o000];
+        let n = pkgs.len() as u64 * 6;
+        v.push(Sweep::new("benign", format!("{} extractions = umask ∈ {{022, 077, 000}} × destination {{absolute, relative to the working directory}} × benign packages (library-built: rich configuration plain / gzip / large-file layout, boundary sizes, every class of permission bits incl. setuid / setgid / sticky, nested directories, relative and dangling symbolic links, a top-level file; the six assets; a hand-encoded package): extraction succeeds and every regular file, directory and symbolic link the package lists exists at target+path with the archived content, permission bits and link target; nothing outside the target changes", n), n, {
             let jail = Jail::new("bn");
             move |i, acc| {
-                let (d, x) = &pkgs[i as usize];
-                benign_case("benign", &jail, x, i, &|| d.clone(), acc);
-                acc.sample(i, || d.clone());
+                let (d, x) = &pkgs[(i / 6) as usize];
+                let (um, rel) = (UMASKS[(i % 3) as usize], i % 6 >= 3);
+                let case = || json!({"package": d, "umask": format!("{:03o}", um), "extract_destination": if rel { "../t/target (relative)" } else { "absolute" }});
+                benign_case("benign", &jail, x, um, rel, i, &case, acc);
+                acc.sample(i, case);
             }
         }));
     }
